@@ -194,6 +194,7 @@ int EGLPNUM_TYPENAME_ILLwrite_lp (
 	EGLPNUM_TYPE *colCoef = NULL;
 	int *colInRow = NULL;
 	const char *objname;
+	char objbuf[ILL_namebufsize];
 
 	ILL_FAILfalse (lp, "called without data\n");
 	ILL_FAILfalse (lp->colnames != NULL, "lp->colnames != NULL");
@@ -216,8 +217,15 @@ int EGLPNUM_TYPENAME_ILLwrite_lp (
 	rval = fix_names (collector, lp->colnames, lp->nstruct, NULL, 'x', &colnames);
 	CHECKRVALG (rval, CLEANUP);
 
+	if (lp->objname == NULL)
+	{
+		/* pick a default objective name that is not the name of a row */
+		strcpy (objbuf, "obj");
+		rval = ILLsymboltab_uname (&lp->rowtab, objbuf, "", NULL);
+		CHECKRVALG (rval, CLEANUP);
+	}
 	rval = fix_names (collector, lp->rownames, lp->nrows,
-										(lp->objname) ? lp->objname : "obj", 'c', &rownames);
+										(lp->objname) ? lp->objname : objbuf, 'c', &rownames);
 	CHECKRVALG (rval, CLEANUP);
 	objname = rownames[lp->nrows];
 
@@ -290,6 +298,7 @@ static void write_objective (
 	char **colnames)
 {
 	int ri, i, k, var;
+	int printed = 0;
 	EGLPNUM_TYPENAME_ILLwrite_lp_state ln, *line = &ln;
 
 	if (lp->probname != NULL)
@@ -347,11 +356,14 @@ static void write_objective (
 				var = 0;								/* next line does not need to prefix coef with '+' */
 				EGLPNUM_TYPENAME_ILLprint_report (lp, "%s\n", line->buf);
 				EGLPNUM_TYPENAME_ILLwrite_lp_state_start (line);
+				printed = 1;
 			}
 		}
 	}
-	if (var > 0)
+	if (var > 0 || !printed)
 	{
+		/* an objective without terms still has a name: without this line the
+		 * reader names it "obj", which may be the name of a row */
 		EGLPNUM_TYPENAME_ILLprint_report (lp, "%s\n", line->buf);
 	}
 }
@@ -646,6 +658,11 @@ static int fix_names (
 			}
 		}
 
+		if (!strcasecmp (buf, "inf") || !strcasecmp (buf, "infinity") || !strcasecmp (buf, "free"))
+		{
+			/* the bounds reader takes these words for infinite values / the free marker */
+			sprintf (buf, "%d", i);
+		}
 		if (!EGLPNUM_TYPENAME_ILLis_lp_name_char (buf[0], 0))
 		{
 			if (symtab == NULL)
